@@ -496,10 +496,15 @@ func engineLevel(enc *json.Encoder, tmp string, rng *rand.Rand, ngroups int) {
 			g.msg = "$" + g.names[len(g.names)-1] + ".b and $$"
 		}
 		if rng.Intn(3) == 0 {
+			// At() on any capture -- also on the `$*xs` list (its span is first..last argument; a list that matched nothing has no
+			// position, the match itself is reported then)
 			g.at = g.names[rng.Intn(len(g.names))]
-			if g.variadic && g.at == g.names[len(g.names)-1] {
-				g.at = g.names[0]
-			}
+		}
+		if gi%8 == 3 && gi%16 == 3 {
+			g.at = g.names[len(g.names)-1] // fixed: At() on the variadic capture (every 16th group)
+		}
+		if gi%8 == 4 && g.at == "" {
+			g.at = "$$" // At(m["$$"]): the match itself
 		}
 		switch rng.Intn(5) {
 		case 0:
@@ -724,6 +729,7 @@ func engineLevel(enc *json.Encoder, tmp string, rng *rand.Rand, ngroups int) {
 	}
 	var sites []site
 	curFn := ""
+	emptyListSeen := map[int]bool{}
 	emitSite := func(gi, alt int, prefix string) {
 		g := groups[gi]
 		tb.WriteString(prefix)
@@ -732,6 +738,11 @@ func engineLevel(enc *json.Encoder, tmp string, rng *rand.Rand, ngroups int) {
 		nargs := len(g.names)
 		if g.variadic {
 			nargs = len(g.names) - 1 + rng.Intn(4)
+			if g.at == g.names[len(g.names)-1] && !emptyListSeen[gi] {
+				// At() on the list capture: the first site of the group gives it nothing to match
+				emptyListSeen[gi] = true
+				nargs = len(g.names) - 1
+			}
 		}
 		var chosen []poolExpr
 		if g.accept != nil {
@@ -969,15 +980,38 @@ func engineLevel(enc *json.Encoder, tmp string, rng *rand.Rand, ngroups int) {
 		}
 		return reports, ""
 	}
+	// where the byte at offset o of the original file lies in a version
+	vat := func(v version, o int) int {
+		if v.nl != nil {
+			return o + v.shift + v.nl[o]
+		}
+		return o + v.shift
+	}
+	// a run that did not finish: the rules run in file order, so the first site without a report is where it stopped
+	panicObs := func(v version, L int, reports []frep, msg string) engineObs {
+		o := engineObs{K: "engine", L: L, Panic: msg, Version: v.what}
+		for _, s := range sites {
+			from, to := vat(v, s.from), vat(v, s.to)
+			seen := false
+			for _, r := range reports {
+				if r.Pos >= from && r.Pos < to {
+					seen = true
+					break
+				}
+			}
+			if !seen {
+				g := groups[s.group]
+				o.Group, o.Alt, o.Msg, o.Sugg, o.At, o.WGroup = s.group, s.alt, g.msg, g.suggest, g.at, g.wgroup
+				o.Rule = "m.Match(`" + patText(s.group, s.alt) + "`)"
+				o.Whole = capSpec{Text: v.src[from:to], From: from, To: to}
+				break
+			}
+		}
+		return o
+	}
 	emit := func(v version, L int, reports []frep) {
 		src := v.src
-		// where the byte at offset o of the original file lies in this version
-		at := func(o int) int {
-			if v.nl != nil {
-				return o + v.shift + v.nl[o]
-			}
-			return o + v.shift
-		}
+		at := func(o int) int { return vat(v, o) }
 		// reports by the start offset of the whole-match site they belong to
 		bySite := map[int][]frep{}
 		var commentReports, suggOnly, famReports []frep
@@ -1031,6 +1065,7 @@ func engineLevel(enc *json.Encoder, tmp string, rng *rand.Rand, ngroups int) {
 						c.From, c.To = at(rest[0].from), at(rest[len(rest)-1].to)
 					} else {
 						c.Text = []byte{}
+						c.From, c.To = -1, -1 // matched nothing: no position
 					}
 					o.Caps = append(o.Caps, c)
 					continue
@@ -1041,9 +1076,13 @@ func engineLevel(enc *json.Encoder, tmp string, rng *rand.Rand, ngroups int) {
 			o.AtEOF = at(s.to) == len(src)
 			o.WPos, o.WEnd = at(s.from), at(s.to)
 			if g.at != "" {
-				for k, n := range g.names {
-					if n == g.at {
-						o.WPos, o.WEnd = at(s.args[k].from), at(s.args[k].to)
+				// "$$" names the match itself; a capture that matched nothing has no position: the match is reported
+				for _, c := range o.Caps {
+					if c.Name == g.at {
+						if c.From >= 0 {
+							o.WPos, o.WEnd = c.From, c.To
+						}
+						break
 					}
 				}
 			}
@@ -1188,7 +1227,7 @@ func engineLevel(enc *json.Encoder, tmp string, rng *rand.Rand, ngroups int) {
 		}
 		reports, pmsg := runFile(t, L)
 		if pmsg != "" {
-			enc.Encode(engineObs{K: "engine", L: L, Panic: pmsg})
+			enc.Encode(panicObs(first, L, reports, pmsg))
 			continue
 		}
 		// the second version (same length, other texts) goes through the state directly after the original; the file keeps
@@ -1232,7 +1271,7 @@ func engineLevel(enc *json.Encoder, tmp string, rng *rand.Rand, ngroups int) {
 			continue // the later versions are analysed under TruncateLen 0 and 20 only
 		}
 		if secondMsg != "" {
-			enc.Encode(engineObs{K: "engine", L: L, Panic: secondMsg})
+			enc.Encode(panicObs(versions[1], L, secondReports, secondMsg))
 		} else {
 			emit(versions[1], L, secondReports)
 		}
@@ -1253,7 +1292,7 @@ func engineLevel(enc *json.Encoder, tmp string, rng *rand.Rand, ngroups int) {
 			}
 			vr, vmsg := runFile(v.t, L)
 			if vmsg != "" {
-				enc.Encode(engineObs{K: "engine", L: L, Panic: vmsg})
+				enc.Encode(panicObs(v, L, vr, vmsg))
 				continue
 			}
 			emit(v, L, vr)
